@@ -18,8 +18,8 @@ L2_FAMS = {
 }
 # AES / Kuznyechik / Serpent native configuration matrix (shadow configurations are added by shadow.py)
 AES_CFGS = [("default", {}), ("aes-compact", {}), ("aes-soft", {}), ("aes-soft-compact", {}),
-            ("aes-detect-off", {"force_off": 1})]
-KUZ_CFGS = [("default", {}), ("kuz-soft", {}), ("kuz-compact", {})]
+            ("aes-detect-off", {"force_off": 1}), ("native", {})]
+KUZ_CFGS = [("default", {}), ("kuz-soft", {}), ("kuz-compact", {}), ("native", {})]
 SERPENT_CFGS = [("default", {}), ("serpent-loop", {})]
 
 ASSUME_COMMON = [
@@ -160,7 +160,7 @@ def c18(tier, seed):
                   big=3 if thorough else 1)
     c.validate(evs, mod, cfg, "wblock-l2", what="belt-wblock conformance", cost=lambda run: sum(len(e.get("in", [])) ** 2 // 256 + 1 for e in run))
     # the crate's optional features are build configurations too (feature-gated code inside the wide-block functions)
-    for j, cfg_id in enumerate(("feat-all", "feat-min")):
+    for j, cfg_id in enumerate(("feat-all", "feat-min", "native", "native-z")):
         fe = c.drive(cfg_id, "wblock", maxlen=100 if thorough else 56, extra=4 if thorough else 1, keys=1, seed=seed + 7 + j, minlen=30)
         c.validate(fe, mod, cfg, f"wblock-l2-{cfg_id}", what=f"belt-wblock conformance ({cfg_id})",
                    cost=lambda run: sum(len(e.get("in", [])) ** 2 // 256 + 1 for e in run))
@@ -180,7 +180,7 @@ def all_configs_for_roundtrip():
     return [("default", {}, None),
             ("aes-soft", {}, "AES"), ("aes-soft-compact", {}, "AES"), ("aes-compact", {}, "AES"),
             ("aes-detect-off", {"force_off": 1}, "AES"),
-            ("kuz-soft", {}, "Kuznyechik"), ("kuz-compact", {}, "Kuznyechik"), ("serpent-loop", {}, "Serpent")]
+            ("kuz-soft", {}, "Kuznyechik"), ("kuz-compact", {}, "Kuznyechik"), ("serpent-loop", {}, "Serpent"), ("native", {}, None)]
 
 
 def c01(tier, seed):
@@ -205,7 +205,7 @@ def c01(tier, seed):
     wb = c.drive("default", "wblock", minlen=32, maxlen=96 if not thorough else 200, extra=4 if not thorough else 30, keys=2,
                  big=3 if not thorough else 12)
     c.validate(wb, API_MOD, API_CFG, "rt-wblock", what="wblock round trip")
-    for cfg_id in ("feat-all", "feat-min"):
+    for cfg_id in ("feat-all", "feat-min", "native"):
         wf = c.drive(cfg_id, "wblock", minlen=32, maxlen=80 if not thorough else 160, extra=2 if not thorough else 10, keys=1, big=1)
         c.validate(wf, API_MOD, API_CFG, f"rt-wblock-{cfg_id}", what=f"wblock round trip ({cfg_id})")
     rule = ("per key: enc(b)->c, dec(c), dec(b)->p, enc(p) through single-block and multi-block entry points, Enc/Dec halves joined "
@@ -231,11 +231,11 @@ def c03(tier, seed):
         c.validate(merged, API_MOD, API_CFG, f"x-{fam}", what=f"{fam} across configurations")
     # feature independence: all crates, minimal vs all features (+ zeroize)
     traces = []
-    for cfg_id in ("feat-min", "default", "feat-all"):
+    for cfg_id in ("feat-min", "default", "feat-all", "native"):
         traces.append((cfg_id, c.drive(cfg_id, "conf", keys=3 if thorough else 2, blocks=2)))
     c.validate(merge_by_run(traces), API_MOD, API_CFG, "x-feat", what="feature independence")
     traces = [(cfg_id, c.drive(cfg_id, "wblock", minlen=32, maxlen=80 if not thorough else 200, extra=2 if not thorough else 12, keys=1, big=1))
-              for cfg_id in ("feat-min", "default", "feat-all")]
+              for cfg_id in ("feat-min", "default", "feat-all", "native", "native-z")]
     c.validate(merge_by_run(traces), API_MOD, API_CFG, "x-feat-wblock", what="feature independence (wblock)")
     rule = ("the same seeded scenario script is executed by every configuration's binary; run k of all configurations is merged under "
             "one learned permutation per key class, so any two configurations disagreeing on any (key, block) are rejected; batch lanes "
@@ -249,7 +249,8 @@ def c04(tier, seed):
     c.model_check("MC_Blocks.tla", "MC_Blocks.cfg", "MC_Blocks", workers=4, timeout=600, must_cover=("ParChunk", "TailStep"))
     evs = []
     cfgs = [("default", {}, None), ("aes-soft", {}, "AES"), ("aes-soft-compact", {}, "AES"),
-            ("aes-detect-off", {"force_off": 1}, "AES"), ("kuz-soft", {}, "Kuznyechik"), ("kuz-compact", {}, "Kuznyechik")]
+            ("aes-detect-off", {"force_off": 1}, "AES"), ("kuz-soft", {}, "Kuznyechik"), ("kuz-compact", {}, "Kuznyechik"),
+            ("native", {}, "AES,Kuznyechik")]
     cfgs += [(sid, {}, fam) for sid, fam in shadow_cfgs(("AES", "Kuznyechik"))]
     for i, (cfg_id, extra, fam) in enumerate(cfgs):
         kw = dict(mult=4 if thorough else 2, random=8 if thorough else 1)
@@ -366,6 +367,11 @@ def c15(tier, seed):
     evs = c.drive("default", "api", steps=60 if thorough else 20, walks=3 if thorough else 1)
     evs += renumber(c.drive("aes-detect-off", "api", family="AES", mix_arms=1, steps=80 if thorough else 40, walks=12 if thorough else 5), 10_000_000)
     c.validate(evs, API_MOD, API_CFG, "hist", what="history independence")
+    # state inside an instance: many uses of one instance (few distinct inputs, so every repetition must repeat the first answer)
+    lu = c.drive("default", "longuse", calls=3000 if thorough else 600)
+    lu += renumber(c.drive("aes-soft", "longuse", family="AES", calls=3000 if thorough else 600), 10_000_000)
+    lu += renumber(c.drive("kuz-soft", "longuse", family="Kuznyechik", calls=3000 if thorough else 600), 20_000_000)
+    c.validate(lu, API_MOD, API_CFG, "longuse", what="many uses of one instance")
     # process-global state: the same observations in differently ordered processes must agree
     for cfg_id in ("default", "dev-soft", "dev-compact"):
         traces = [(f"{cfg_id}#{perm}", c.drive(cfg_id, "order", perm=perm, keys=3 if thorough else 2)) for perm in (0, 1, 7 + seed, 99 + seed)]
@@ -392,7 +398,7 @@ def c16(tier, seed):
     c = Check("C16", tier, seed)
     thorough = tier == T
     evs = []
-    plan = [("feat-all", {}, None), ("soft-z", {}, "AES,Kuznyechik"), ("compact-z", {}, "AES,Kuznyechik"),
+    plan = [("feat-all", {}, None), ("soft-z", {}, "AES,Kuznyechik"), ("compact-z", {}, "AES,Kuznyechik"), ("native-z", {}, "AES,Kuznyechik"),
             ("aes-detect-off-z", {"force_off": 1}, "AES")]
     from . import shadow
     for sid, fam in (("aes-fix32-z", "AES"), ("aes-armv8-z", "AES"), ("kuz-neon-z", "Kuznyechik")):
